@@ -5,6 +5,7 @@ package c14
 
 import (
 	"bytes"
+	"errors"
 	"fmt"
 	"math"
 	"reflect"
@@ -130,6 +131,17 @@ func sameVal(a, b any) bool {
 // react to a change of the newest snapshot (a column plotted a day late does not).
 var averages = map[string]bool{"Fast": true, "Slow": true, "Medium": true, "Short": true, "Long": true, "KAMA": true, "SMA": true, "VWMA": true,
 	"VWAP": true, "Moving Average": true, "Weighted Close": true, "Jaw": true, "Teeth": true, "Lip": true, "Middle": true}
+
+// failAtEnd accepts everything except a chunk that holds the closing tag of the page (by then
+// every column has been consumed, so the refused write leaves no pipeline behind).
+type failAtEnd struct{}
+
+func (failAtEnd) Write(p []byte) (int, error) {
+	if bytes.Contains(p, []byte("</html>")) {
+		return 0, errors.New("no space left on device")
+	}
+	return len(p), nil
+}
 
 var addRow = regexp.MustCompile(`(?s)data\.addRow\(\[(.*?)\]\);`)
 
@@ -345,6 +357,15 @@ func check(c Case) engine.Outcome {
 	// 5. thorough: the rendered HTML agrees with the channel contents row by row
 	if (engine.Thorough() || n%3 == 0 || c.Zone != 0) && len(mism) == 0 {
 		var buf bytes.Buffer
+		if n%2 == 0 {
+			// a write that fails (a full disk: the very last chunk is refused) precedes the write
+			// that is checked: what one report could not deliver must not turn up in the next
+			if err := c.Tree.Build().Report(helper.SliceToChan(sn)).WriteToWriter(failAtEnd{}); err == nil {
+				o.Failf("%s: WriteToWriter to a writer that refuses the last chunk returned no error", c.Tree)
+				return o
+			}
+			o.Add("rendered_after_a_failed_write", 1)
+		}
 		rep := c.Tree.Build().Report(helper.SliceToChan(sn))
 		if err := rep.WriteToWriter(&buf); err != nil {
 			o.Failf("%s: WriteToWriter: %v", c.Tree, err)
